@@ -4,19 +4,20 @@ import json
 import os
 
 BASE = "/verif/seeded"
-rows = []
+print("| seeded change | written for | caught by (quick tier, final checks) | target check when the change was delivered |")
+print("|---|---|---|---|")
 for d in sorted(os.listdir(BASE)):
     p = os.path.join(BASE, d, "meta.json")
     if not os.path.exists(p):
         continue
     m = json.load(open(p))
-    caught = m.get("caught_by")
-    if caught is None and "final_check" in m:
-        caught = m["final_check"]["caught_by"]
     final = m.get("final_check", {})
-    rows.append((d, m.get("breaks", "?"), ", ".join(final.get("caught_by", caught or [])) or "-",
-                 m.get("first_intake_note", ""), (m.get("commit_subject") or m.get("summary") or "")[:90]))
-print("| seeded change | written for | caught by (quick tier) | note |")
-print("|---|---|---|---|")
-for r in rows:
-    print("| %s | %s | %s | %s |" % (r[0], r[1], r[2], r[3] or r[4]))
+    caught = final.get("caught_by", m.get("caught_by", []))
+    fv = m.get("first_version_of_target_check")
+    if d.startswith("revert-"):
+        note = "defect of the pinned tree: found by this check (see section 17)"
+    elif fv is None:
+        note = "?"
+    else:
+        note = "caught" if fv.get("caught") else "MISSED -> strengthened (see above)"
+    print("| %s | %s | %s | %s |" % (d, m.get("breaks", "?"), ", ".join(caught) or "-", note))
